@@ -147,7 +147,7 @@ def payload_of(sh, v):
             prog = cm["prog"]
         c = cm["case"]
         calls.append({k: c[k] for k in ("op", "data", "start", "kw", "arg", "flt", "res")})
-    return {"kind": "session", "clause": m.get("clause"), "prog": prog, "calls": calls, "verdict": v}
+    return {"kind": "session", "clause": m.get("clause"), "prog": prog, "calls": calls, "x": m.get("x"), "tag": m.get("tag"), "verdict": v}
 
 def judge(ctx, camp, verdicts, conformance=None, clauses=(), nontrivial=None):
     """conformance: None or a predicate (verdict, meta) -> bool selecting the mismatches that are violations of
